@@ -139,7 +139,7 @@ def concretise(prog, ctr):
     return mk
 
 
-def serve(prog, env, extra_status=None, rewrite=False):
+def serve(prog, env, extra_status=None, rewrite=False, oneshot=False, cookie=None):
     from ombott import Ombott
     ctr = Counter()
     mk = concretise(prog, ctr)
@@ -148,16 +148,23 @@ def serve(prog, env, extra_status=None, rewrite=False):
     for i in range(1, env['nb'] + 1):
         def b(i=i):
             hooks.append(['b', i])
+            if i == 1 and oneshot:
+                app.remove_hook('before_request', b_first[0])      # the "first request only" idiom: a hook that unregisters itself
             if i == 1 and rewrite:
                 # before-request hooks run BEFORE routing: a hook may send the request elsewhere (locale prefix, retired URL)
                 app.request['PATH_INFO'] = final_path
             if i == env['failAt']:
                 raise RuntimeError('before hook failed')
         app.add_hook('before_request', b)
+        if i == 1:
+            b_first = [b]
     for j in range(1, env['na'] + 1):
         def a(j=j):
             hooks.append(['a', j])
+            if j == env['na'] and oneshot:
+                app.remove_hook('after_request', a_last[0])
         app.add_hook('after_request', a)
+        a_last = [a]
     if env['errh'] != 'none':
         for code in (404, 500):
             def eh(err, code=code):
@@ -173,6 +180,8 @@ def serve(prog, env, extra_status=None, rewrite=False):
             raise mk(prog['v'])
         if prog.get('setst'):
             app.response.status = prog['setst']
+        if cookie is not None:
+            app.response.set_cookie('k', cookie)
         return mk(prog['v'])
     if env['routing'] == '405':
         app.route('/h', method=['PUT'], callback=handler)
@@ -227,6 +236,15 @@ def serve(prog, env, extra_status=None, rewrite=False):
                 obs['wf'] = False
         except ValueError:
             obs['wf'] = False
+        for hk, hv in rec['headers']:
+            # PEP 3333: header names and values are native strings that the server can encode as ISO-8859-1, without control characters
+            try:
+                if not isinstance(hk, str) or not isinstance(hv, str) or any(ord(c) < 32 or ord(c) == 127 for c in hk + hv):
+                    raise ValueError
+                (hk + hv).encode('latin1')
+            except ValueError:
+                obs['wf'] = False
+                obs['why'] = 'header %r is not a well-formed native string' % hk
         cls = [v for k, v in rec['headers'] if k.lower() == 'content-length']
         if cls:
             try:
@@ -412,7 +430,7 @@ def run(chk):
     recs = []
     for w in wl:
         env = {k: w['env'][k] for k in ('method', 'fw', 'routing', 'nb', 'failAt', 'na', 'errh')}
-        obs = serve(w['prog'], env, rewrite=len(recs) % 3 == 0)
+        obs = serve(w['prog'], env, rewrite=len(recs) % 3 == 0, oneshot=len(recs) % 4 == 1, cookie=[None, 'v1', '10\u20ac', '\u4e2d\xe9'][len(recs) % 4])
         recs.append({'prog': w['prog'], 'env': env, 'obs': obs})
         chk.count(1, ('tlc', json.dumps(w['prog'], sort_keys=True), json.dumps(env, sort_keys=True)))
     chk.sample({'prog': recs[0]['prog'], 'env': recs[0]['env'], 'obs': {k: v for k, v in recs[0]['obs'].items()}})
@@ -427,7 +445,7 @@ def run(chk):
                'failAt': rng.choice([0, 0, 0] + list(range(1, nb + 1))), 'na': rng.choice([0, 1, 2]),
                'errh': rng.choice(['none', 'none', 'str', 'raise'])}
         prog.setdefault('setst', 0)
-        obs = serve(prog, env, rewrite=rng.random() < 0.3)
+        obs = serve(prog, env, rewrite=rng.random() < 0.3, oneshot=rng.random() < 0.3, cookie=rng.choice([None, None, 'a b', '10\u20ac', '\u0416', 'caf\xe9']))
         recs.append({'prog': prog, 'env': env, 'obs': obs})
         chk.count(1, ('rand', json.dumps(prog, sort_keys=True), json.dumps(env, sort_keys=True)))
     chk.sample({'prog': recs[-1]['prog'], 'env': recs[-1]['env'], 'obs': recs[-1]['obs']})
